@@ -517,6 +517,32 @@ theorem scanMarkers_expected_marker (sv : Bool) (names : List String) (acc : Opt
         simp [this]
       · simp only [hk, Bool.false_eq_true, if_false]; exact ih _ hacc has
 
+/-- the marker counts wherever it stands in the peer's kex list: before, between or after real algorithm names and
+`ext-info-*`; the outcome is `advertise` -/
+theorem scanMarkers_marker_anywhere (sv adv : Bool) (pre post : List String) (acc : Option String × Bool)
+    (hpre : ∀ a ∈ pre, a.startsWith "kex-strict-" = false)
+    (hpost : ∀ a ∈ post, a.startsWith "kex-strict-" = false) :
+    (scanMarkers sv adv (pre ++ expectedMarker sv :: post) acc).2 = adv := by
+  have hm1 : (expectedMarker sv).startsWith "ext-info-" = false := by cases sv <;> decide +kernel
+  have hm2 : (expectedMarker sv).startsWith "kex-strict-" = true := by cases sv <;> decide +kernel
+  induction pre generalizing acc with
+  | nil =>
+    obtain ⟨ei, ag⟩ := acc
+    simp only [List.nil_append]
+    unfold scanMarkers
+    simp only [hm1, Bool.false_eq_true, if_false, hm2, if_true]
+    rw [scanMarkers_no_marker _ _ _ _ hpost]
+    cases sv <;> simp [expectedMarker]
+  | cons a as ih =>
+    obtain ⟨ei, ag⟩ := acc
+    have ha := hpre a (by simp)
+    have has : ∀ b ∈ as, b.startsWith "kex-strict-" = false := fun b hb => hpre b (by simp [hb])
+    simp only [List.cons_append]
+    unfold scanMarkers
+    by_cases he : a.startsWith "ext-info-" = true
+    · simp only [he, if_true]; exact ih _ has
+    · simp only [he, Bool.false_eq_true, if_false, ha]; exact ih _ has
+
 /-- a KEXINIT received in an established session (a re-exchange, started by either side): if it is accepted, the
 agreed strict mode afterwards is what the marker scan makes of the mode agreed before -/
 theorem rekey_kexinit_strict (T : Tables) (hT : KexTables T) (s : St) (hact : s.active = true) (he : s.err = none)
